@@ -12,7 +12,8 @@ job = {H, W, L,
                       (+ ref for the reference operators) in layer order and data_vars is left to its default
        table   optional list of reals: "rank mode" - the real value of code c (layers AND ref) is table[c]; the
                table is strictly increasing, so the codes are order-isomorphic to the values (near-tie datasets)
-       funcs   optional list of the operators to run and judge (default all); pop: run popularity (default true)
+       funcs   optional list of the operators to run and judge (default all); pop / comb: run popularity / combine
+       negzero every second zero of a float layer is stored as -0.0
        full, pairs, tag}
 Any observed value that is not within tolerance of an admissible small exact value is encoded as BADR.
 """
@@ -127,7 +128,13 @@ def run_job(j):
     names = ["v%d" % i for i in range(L)]
     table = j.get("table")
     funcs = j.get("funcs") or (STATS + REFF + POSF)
-    arrs = [lay(decode(j["layers"][i], dtypes[i], scale, table), layouts[i]) for i in range(L)]
+    def signed_zeros(a, i):
+        # same VALUES, other bits: every second zero of a float layer is stored as -0.0 (-0.0 == 0.0)
+        if j.get("negzero") and a.dtype.kind == "f":
+            yy, xx = np.indices(a.shape)
+            a[(a == 0) & ((yy + xx + i) % 2 == 1)] = -0.0
+        return a
+    arrs = [lay(signed_zeros(decode(j["layers"][i], dtypes[i], scale, table), i), layouts[i]) for i in range(L)]
     if table is None:
         ref = lay(np.array(j["ref"], dtype=j.get("ref_dtype", "int64")), j.get("ref_layout", "C"))
     else:
@@ -162,7 +169,7 @@ def run_job(j):
     refc = j["ref"] if table is not None else [[int(round(v / scale)) for v in row] for row in j["ref"]]
     case = {"H": H, "W": W, "L": L, "layers": j["layers"], "ref": j["ref"], "refc": refc, "full": int(j.get("full", 0)),
             "pairs": int(j.get("pairs", 0)), "funcs": [f for f in STATS + REFF[:3] + POSF + REFF[3:] if f in funcs],
-            "haspop": int(bool(j.get("pop", True))), "hascomb": 1, "tag": j.get("tag", ""), "job": j}
+            "haspop": int(bool(j.get("pop", True))), "hascomb": int(bool(j.get("comb", True))), "tag": j.get("tag", ""), "job": j}
     ds, dv = dataset(True)
     case["strides"] = [[int(s // ds[n].data.itemsize) for s in ds[n].data.strides] for n in names]
     # what np.nditer really does with arrays of these layouts (cell ids instead of values)
@@ -221,7 +228,8 @@ def run_job(j):
         r = call("popularity", LOC.popularity, None, ref_var="ref")
         if r is not None:
             case["pop"] = grid(r.data, lambda v: val(v, scale))
-    r = call("combine", LOC.combine, None)
+    case["comb"], case["key"] = skipped, []
+    r = call("combine", LOC.combine, None) if j.get("comb", True) else None
     if r is not None:
         def cid(v):
             try:
